@@ -20,8 +20,7 @@ if os.path.exists(CACHE):
 else:
     g = {}
     for kind in ("ttl", "make", "via", "range", "srow", "s32cmp", "s32add"):
-        cfg = ctx.cfg("gen_%s.cfg" % kind, x02.GEN_CFG.format(kind=kind, **x02.TIERS["quick"]))
-        g[kind] = [b[0] for b in ctx.generate("Gen_TtlRange", cfg, count=False)]
+        g[kind] = x02.universe(ctx, kind, "quick")
     json.dump(g, open(CACHE, 'w'))
 only = sys.argv[2].split(",") if len(sys.argv) > 2 else list(g)
 jobs = []
@@ -34,6 +33,10 @@ traces = ctx.pmap(drv.run_job, jobs)
 rejects = ctx.validate("Trace_TtlRange", "Trace_TtlRange.cfg", traces, shards=6)
 singles = [s for tr, _, _ in rejects for s in x02.explode(tr)]
 final = ctx.validate("Trace_TtlRange", "Trace_TtlRange.cfg", singles, shards=6) if singles else []
+rows = [r for r in final if r[0]["ev"][0].get("op") in ("cmp", "add") and not r[2].endswith("RowComplete")][:x02.PINPOINT_ROWS]
+if rows:
+    pinned = ctx.validate("Trace_TtlRange", "Trace_TtlRange.cfg", [s for tr, _, _ in rows for s in x02.explode(tr, True)], shards=6)
+    final = [r for r in final if not any(r is x for x in rows)] + pinned
 sigs = collections.Counter(x02.classify(tr, line, clause) for tr, line, clause in final)
 bad = {tr["tid"] for tr, _, _ in rejects}
 soft = [tr for tr in traces if tr["kind"] in x02.STRICT_KINDS and tr["tid"] not in bad]
